@@ -969,6 +969,13 @@ pub fn corpus() -> Vec<(&'static str, &'static str, Vec<Op>)> {
         // genesis by brc20_initialise on a chain that was started by brc20_mine (indexer account unused): accepted
         ("late_initialise_on_mined_chain", "c05", vec![Op::Mine { n: 2, ts: TS0 + 1 }, Op::Initialise { hash: Hx::n32(0xbeef), ts: TS0 + 2, height: 2 }, Op::Mine { n: 1, ts: TS0 + 3 },
             Op::Initialise { hash: Hx::n32(0xbeef), ts: TS0 + 2, height: 2 }, Op::Initialise { hash: Hx::n32(0xdead), ts: TS0 + 2, height: 2 }]),
+        // a reorg the engine's own check lets through (height - target <= 10) but the store refuses (the highest
+        // block ever finalised is more than 10 above the target): refused calls leave nothing behind, also not on
+        // disk - what clearCaches / a restart shows afterwards is the same as without the call
+        ("store_refused_reorg_then_clear", "c05", vec![t_init(), Op::Mine { n: 20, ts: TS0 + 1 }, Op::Commit, Op::Reorg(12), Op::Mine { n: 2, ts: TS0 + 2 },
+            Op::Reorg(5), Op::Clear, Op::Mine { n: 1, ts: TS0 + 3 }]),
+        ("store_refused_reorg_then_commit_reopen", "c05", vec![t_init(), Op::Mine { n: 20, ts: TS0 + 1 }, Op::Reorg(12), Op::Mine { n: 2, ts: TS0 + 2 },
+            Op::Reorg(5), Op::Reorg(3), Op::Mine { n: 1, ts: TS0 + 3 }, Op::Commit, Op::Reopen]),
         // allowance of one byte = 12000 gas < 21000: recorded, nonce not consumed; the same transaction again
         ("below_intrinsic_gas_twice", "c06", vec![t_init(), t_signed(2, 0, vec![1, 2, 3], TS0 + 1, "lowi0", 1), t_signed(2, 0, vec![1, 2, 3], TS0 + 1, "againi0", 2000), t_fin(TS0 + 1)]),
         ("below_intrinsic_gas_inscription", "c06", vec![t_init(),
